@@ -345,7 +345,8 @@ fn run_client_op(w: &Arc<World>, c: usize, j: usize) {
         content,
         digest: fnv(obs.as_bytes()),
         status: status.into(),
-        obs: if w.full { Some(obs) } else { None },
+        // kept in both modes so that a full (replay) execution allocates exactly like a plain one
+        obs: Some(obs),
     });
     sched::yield_point(sched::SITE_OP_END);
 }
@@ -384,7 +385,7 @@ pub fn execute(plan: Plan, full: bool) -> RunResult {
     let slots = plan.slots.iter().map(|cs| Mutex::new(Arc::new(Shared(DocBox::new(&values[cs[0]], sim_repr(plan.repr), cs[0]))))).collect();
     let n = plan.clients.len();
     let follow = plan.schedule.as_ref().and_then(|s| sched::unrle(s));
-    let sch = Sched::new(n, plan.seed, plan.policy.clone(), plan.site_mask, plan.faults.clone(), follow, full, 5_000_000);
+    let sch = Sched::new(n, plan.seed, plan.policy.clone(), plan.site_mask, plan.faults.clone(), follow, true, 5_000_000);
     let w = Arc::new(World {
         values,
         slots,
@@ -452,6 +453,11 @@ pub fn execute(plan: Plan, full: bool) -> RunResult {
     }
     let mut recs = w.recs.lock().unwrap().clone();
     recs.sort_by_key(|r| (r.c, r.j));
+    if !full {
+        for r in recs.iter_mut() {
+            r.obs = None;
+        }
+    }
     let st = sch.stats();
     let mut fp = st.log_hash;
     for r in &recs {
@@ -842,6 +848,33 @@ pub fn gen_corpus_with(seed: u64, n_fam: usize, q_per_fam: usize, adv: bool) -> 
             fam_queries.push(fq);
             continue;
         }
+        if adv && n_fam >= 8 && f == 2 {
+            // the huge family: arrays beyond the thresholds at which an implementation might switch
+            // strategy (128, 512, 1024 elements) and strings of 32+ bytes whose byte length is equal
+            // but whose character count is not
+            let mut fam = vec![];
+            let mk = |n: usize, s: &str, t: &str| -> String {
+                let huge: Vec<Value> = (0..n).map(|i| if i % 97 == 5 { json!(format!("s{}", i % 3)) } else { json!((i % 7) as i64) }).collect();
+                json!({"huge": huge, "s": s, "t": t, "list": ["a", "b", 1], "u": {"s": t}}).to_string()
+            };
+            let e20 = "é".repeat(20);
+            let ab20 = "ab".repeat(20);
+            let j14 = "日本".repeat(7);
+            for t in [mk(600, &e20, &ab20), mk(1100, &ab20, &e20), mk(130, &j14, &format!("{}xx", "ж".repeat(20)))] {
+                contents.push(t);
+                fam.push(contents.len() - 1);
+            }
+            let mut fq = vec![];
+            for q in ["$.huge[?@ > 3]", "$.huge[?@ == 0]", "$.huge[::50]", "$.huge[-1]", "$.huge[512]", "$.huge[?@ == 's1']", "$[?length(@) == 20]", "$[?length(@) > 30]", "$..[?length(@) == 40]",
+                      "$[?length(@.s) == 40]", "$.u[?length(@) <= 22]", "$.huge[100:140]", "$.huge[?match(@, 's.')]", "$..s", "$[?count(@.huge[*]) > 512]"] {
+                queries.push(q.to_string());
+                fq.push(queries.len() - 1);
+                q_other_family.push(f);
+            }
+            families.push(fam);
+            fam_queries.push(fq);
+            continue;
+        }
         let special = f % 2 == 0;
         if special {
             // the shape the extension functions, regex filters and root-dependent filters are selective on
@@ -976,7 +1009,7 @@ pub fn gen_plan_opt(c: &Corpus, run_seed: u64, allow_stress: bool) -> (Plan, Pla
         // a later slot often repeats an earlier family: equal or nearly equal documents live together
         let mut f = if s > 0 && rng.chance(1, 2) { *rng.pick(&fams_used) } else if stress { rng.below(c.families.len().min(3)) } else { rng.below(c.families.len()) };
         // the deep family is expensive: take it one time in three of what a uniform draw would
-        if c.contents[c.families[f][0]].starts_with("#deep") && !fams_used.contains(&f) && rng.chance(2, 3) {
+        if (c.contents[c.families[f][0]].starts_with("#deep") || c.contents[c.families[f][0]].len() > 1500) && !fams_used.contains(&f) && rng.chance(2, 3) {
             f = rng.below(c.families.len());
         }
         if !fams_used.contains(&f) {
@@ -1190,7 +1223,7 @@ pub fn gen_plan_opt(c: &Corpus, run_seed: u64, allow_stress: bool) -> (Plan, Pla
         }
     }
     // a deep document has a thousand nodes on one path: mostly keep the per-node schedule points off
-    let has_deep = content_map.iter().any(|ci| c.contents[*ci].starts_with("#deep"));
+    let has_deep = content_map.iter().any(|ci| c.contents[*ci].starts_with("#deep") || c.contents[*ci].len() > 1500);
     if has_deep && rng.chance(9, 10) {
         for s in [3u32, 4, 5, 6, 12] {
             site_mask &= !(1u64 << s);
